@@ -581,7 +581,7 @@ def outcome_matches(path, row, case=None):
     return None
 
 
-def compare(paths, rows, nonneg=True, extra_consts=(), variant_domain=None, constraints=(), ignore_unreachable=True):
+def compare(paths, rows, nonneg=True, extra_consts=(), variant_domain=None, constraints=(), ignore_unreachable=True, len_unbounded=False):
     """-> (mismatches, n_cases, n_decided).  Paths of kind 'unreachable' are dropped."""
     ps = [p for p in paths if not (ignore_unreachable and p.kind == "unreachable")]
     pconds = [[norm_atom(c) for c in p.conds] for p in ps]
@@ -619,6 +619,20 @@ def compare(paths, rows, nonneg=True, extra_consts=(), variant_domain=None, cons
             # case where the operands are known and the subtrahend is larger, the path panics (overflow checks on: debug builds,
             # const evaluation) or continues with a wrapped value - either way not what the reference row describes
             if row.kind in ("return", "any") and p.kind == "return":
+                if len_unbounded:
+                    # slices of zero-sized elements can be usize::MAX long: `len + c` overflows for them unless the path has bounded the
+                    # length from above (only asked by the tables of functions generic in the element type)
+                    pc = [norm_atom(strip_gargs(c_)) for c_ in p.conds]
+                    bad = None
+                    for ob in getattr(p, "assumed", ()) or ():
+                        if ob[0] == "noover" and ob[1] == "Add":
+                            x, k = (ob[2], ob[3]) if ob[3][0] == "int" else ((ob[3], ob[2]) if ob[2][0] == "int" else (None, None))
+                            if x is not None and strip_gargs(x)[0] == "len" and k[1] > 0 and not any(c_[0] == "lt" and c_[1] == strip_gargs(x) for c_ in pc):
+                                bad = ob
+                    if bad is not None:
+                        mism.append(Mismatch(case, "row %r: the path computes %s + %s; a slice of zero-sized elements can be usize::MAX long, so this "
+                                                   "overflows (panic with overflow checks, a wrapped length otherwise)" % (row.name, sym.show(bad[2]), sym.show(bad[3])), p, row))
+                        continue
                 for ob in getattr(p, "assumed", ()) or ():
                     if ob[0] != "nounder":
                         continue
